@@ -71,6 +71,18 @@ if valid:
             keys = [l.strip() for l in o.splitlines() if l.startswith("  key=")]
             head = [l for l in o.splitlines() if l.startswith(("VIOLATION", "OK", "INCONCLUSIVE"))][:3]
             results[cid] = {"exit": rc, "keys": keys[:6], "lines": head}
+            # keep the first reproduction as a regression replay (it must pass on the clean tree)
+            if rc == 1 and cid == prop:
+                import re
+                m = re.search(r"^VIOLATION property=\S+ replay=(\S+)", o, re.M)
+                if m and os.path.exists(m.group(1)) and "/replays/" not in m.group(1):
+                    rd = os.path.join(ROOT, "replays", cid)
+                    os.makedirs(rd, exist_ok=True)
+                    rf = json.load(open(m.group(1)))
+                    rf["msg"] = (rf.get("msg") or "")[:400]
+                    rf["origin"] = "found with seeded change %s applied" % name
+                    json.dump(rf, open(os.path.join(rd, "%s.json" % name), "w"), indent=1)
+                    results[cid]["replay_saved"] = "replays/%s/%s.json" % (cid, name)
             print("CHECK %s on seed %s: exit %d %s" % (cid, name, rc, keys[:4]))
     finally:
         sh(["git", "-C", "/repo", "checkout", "--", "."])
